@@ -213,3 +213,76 @@ Example C07_linked_nonvacuous :
   blk_fast ex_lorc 1 FastStreamExamples.ex_b1 FastStreamExamples.ex_b2 = None.
 Proof. exact (conj ex_lorc_ok ex_lblk_val). Qed.
 (* ================================================================ end of [stream/lnk6] *)
+
+(* ---- the block-compressor hypothesis DISCHARGED for independent blocks without dictionary (Proofs/BlkInst.v): see
+   Properties_C03.v.  The frame produced by the LZ4F model with the block-compressor MODELS plugged in is conformant:
+   every block is strictly valid, sizes and checksums are as the frame format prescribes. *)
+From LZ4V Require Import Model.FastApi Model.HcMidApi Model.HcChainApi Model.HcOptApi.
+From LZ4V Require Import Proofs.BlkInst Proofs.BlkFrameInst.
+
+Theorem C07_frame_conformant_indep_discharged : forall level sf sm sh, states_ok sf sm sh ->
+  forall c0 po ms F X,
+  prefs_opt_ok po -> uncompressed_only_if_independent po ms -> len X < U64 ->
+  p_level (eff_prefs po) = level -> p_blockMode (eff_prefs po) = FC_blockIndependent ->
+  session (blk_indep level sf sm sh) c0 po NoDict ms = Some (F, X) ->
+  exists maxb bl,
+    let p := eff_prefs po in
+    4 <= p_bsid p <= 7 /\ bsid_size (p_bsid p) = Some maxb /\
+    F = header_bytes (desc_of p) ++ enc_blocks (p_bcrc p =? 1) bl ++ le_bytes 4 0
+        ++ (if p_ccrc p =? 1 then le_bytes 4 (xxh32 0 X) else []) /\
+    X = contents bl /\
+    chain strict_valid (p_blockMode p =? 1) (dict_of NoDict) maxb [] bl /\
+    (p_contentSize p <> 0 -> p_contentSize p = len X) /\
+    frame_audit strict_valid (dict_of NoDict) F = Some (desc_of p, X, [], Z.of_nat (length bl)) /\
+    frame_decode strict_valid false (dict_of NoDict) F = Some (X, []).
+Proof. exact c07_conformant_indep. Qed.
+Print Assumptions C07_frame_conformant_indep_discharged.
+
+Example C07_indep_discharged_run :
+  let ops := [MUpdate (repeat 97 40 ++ [1;2;3;4;5;6;7;8]); MFlush; MUpdate (concat (repeat [5;6;7;8;9] 12))] in
+  let run := fun l => match session (blk_indep l (fun _ => ctx_init) (fun _ => hc_init) (fun _ => cc_init)) cctx_zero
+                                     (Some (mkPrefs 4 1 1 0 0 1 l 1 0)) NoDict ops with
+                      | Some (F, X) => (length F, match frame_decode strict_valid false [] F with Some (Y, []) => Z.of_nat (length Y) | _ => -1 end)
+                      | None => (0%nat, -1) end in
+  (run 0, run 2, run 9, run 12) = ((60%nat, 108), (60%nat, 108), (60%nat, 108), (60%nat, 108)).
+Proof. vm_compute. reflexivity. Qed.
+
+(* ---- linked blocks and dictionaries through the STREAMING models (see Properties_C03.v): every block of the frame is
+   strictly valid against the history the format prescribes, and the frame decodes ---- *)
+From LZ4V Require Import Model.FastStream Model.HcTabStream Model.HcOptStream.
+From LZ4V Require Import Proofs.BlkInstFastLinked Proofs.BlkInstHcLinked Proofs.BlkFrameInstLinked.
+
+Theorem C07_frame_conformant_fast_stream_discharged : forall level st, (forall n, lorc_ok (st n)) ->
+  forall c0 po dk ms F X,
+  prefs_opt_ok po -> uncompressed_only_if_independent po ms -> len X < U64 ->
+  p_level (eff_prefs po) = level -> level < LZ4HC_CLEVEL_MIN ->
+  session (blk_fast_linked st level) c0 po dk ms = Some (F, X) ->
+  frame_decode strict_valid false (dict_of dk) F = Some (X, []) /\
+  exists maxb bl, bsid_size (p_bsid (eff_prefs po)) = Some maxb /\ X = contents bl /\
+    chain strict_valid (p_blockMode (eff_prefs po) =? 1) (dict_of dk) maxb [] bl.
+Proof. exact c07_conformant_fast_stream. Qed.
+Print Assumptions C07_frame_conformant_fast_stream_discharged.
+
+Theorem C07_frame_conformant_hc_stream_discharged : forall st, (forall n, horc_ok (st n)) ->
+  forall c0 po dk ms F X,
+  prefs_opt_ok po -> uncompressed_only_if_independent po ms -> len X < U64 ->
+  3 <= p_level (eff_prefs po) -> p_blockMode (eff_prefs po) = 0 -> no_cdict dk ->
+  session (blk_hc_linked st) c0 po dk ms = Some (F, X) ->
+  frame_decode strict_valid false (dict_of dk) F = Some (X, []) /\
+  exists maxb bl, bsid_size (p_bsid (eff_prefs po)) = Some maxb /\ X = contents bl /\
+    chain strict_valid (p_blockMode (eff_prefs po) =? 1) (dict_of dk) maxb [] bl.
+Proof. exact c07_conformant_hc_stream. Qed.
+Print Assumptions C07_frame_conformant_hc_stream_discharged.
+
+(* level 2 (LZ4MID): linked blocks, dictionaries and CDict through the LZ4MID stream model (Proofs/BlkInstMidLinked.v) *)
+From LZ4V Require Import Model.HcMidStream Proofs.BlkInstMidLinked Proofs.BlkFrameInstMid.
+Theorem C07_frame_conformant_mid_stream_discharged : forall st, (forall n, morc_ok (st n)) ->
+  forall c0 po dk ms F X,
+  prefs_opt_ok po -> uncompressed_only_if_independent po ms -> len X < U64 ->
+  p_level (eff_prefs po) = 2 ->
+  session (blk_mid_linked st) c0 po dk ms = Some (F, X) ->
+  frame_decode strict_valid false (dict_of dk) F = Some (X, []) /\
+  exists maxb bl, bsid_size (p_bsid (eff_prefs po)) = Some maxb /\ X = contents bl /\
+    chain strict_valid (p_blockMode (eff_prefs po) =? 1) (dict_of dk) maxb [] bl.
+Proof. exact c07_conformant_mid_stream. Qed.
+Print Assumptions C07_frame_conformant_mid_stream_discharged.
